@@ -43,6 +43,8 @@ func main() {
 		err = genBodySinks(os.Args[2], os.Args[3])
 	case "register":
 		err = genRegister(os.Args[2], os.Args[3])
+	case "grpcwarmup":
+		err = genGrpcWarmUp(os.Args[2], os.Args[3])
 	default:
 		err = fmt.Errorf("unknown translator %q", os.Args[1])
 	}
